@@ -218,7 +218,7 @@ def loader_family(tier, seed):
                             ("collect", "forbid", "saturate"), ("skip", "skip", "kwargs")]
             if quick:
                 # keep the quick family small but covering: every crown kind; policies and modes on a subset
-                if sname not in ("r2", "r_dv", "r_o", "p_k_dv_w", "r_dvo", "r_dfo", "renamed", "r_dv_dv", "dv_only"):
+                if sname not in ("r2", "r_dv", "r_dvn", "r_o", "p_k_dv_w", "r_dvo", "r_dfo", "renamed", "r_dv_dv", "dv_only"):
                     continue
                 if sname == "dv_only":
                     if cname != "skip_opt":
